@@ -60,7 +60,9 @@ MOD_WORLD = {
         {'name': 'pb.tests.test_x', 'suite': {'s': [{'t': 'bb', 'layer': 'LA'}]}},
     ]}
 MOD_PATS = ['pa', 'pb', 'm0', 'test_x', 'tests', '^pa', 'm1$', 'p[ab].tests.test_m',
-            'pa.tests.test_m0$', '.', '', '!pa', '!m0', '!tests', '!.', '!x$', '!']
+            'pa.tests.test_m0$', '.', '', '!pa', '!m0', '!tests', '!.', '!x$', '!',
+            # negated patterns that match the dotted name of a PACKAGE but of no module below it (anchored at the end)
+            '!tests$', '!^pa$', '!^pb\\.tests$', '!pa\\.tests\\Z', '!tests(?!\\.)']
 
 
 def _sign(patterns):
@@ -299,7 +301,8 @@ def _gen_e2e(rng):
 def _gen_e2e_mod(rng):
     fixed = [{'m': ['pa']}, {'m': ['!pa']}, {'m': ['m0', '!pb']}, {'m': ['!m0', '!x$']},
              {'legacy': ['pb']}, {'legacy': ['.', 'a']}, {'legacy': ['!pa', '!a']},
-             {'m': ['test_x'], 'legacy': ['m1$', 'b']}, {}]
+             {'m': ['test_x'], 'legacy': ['m1$', 'b']}, {},
+             {'m': ['!tests$']}, {'m': ['!^pa$']}, {'m': ['!^pb\\.tests$', 'm0']}, {'m': ['!tests(?!\\.)']}]
     for o in fixed:
         yield {'kind': 'e2e-mod', 'world': MOD_WORLD, 'opts': o}
     while True:
